@@ -1189,7 +1189,10 @@ class Client():
             if self.connector.connected:
                 if self.respondent:
                     if self.respondent.evented and self.respondent.leid is not None:  # update Last-Event-ID header
-                        self.requester.headers['Last-Event-ID'] = self.respondent.leid
+                        # header value is the last event id encoded as UTF-8, kept as
+                        # str so that packHeader's iso-8859-1 encode gives those bytes
+                        leid = self.respondent.leid.encode('utf-8').decode('iso-8859-1')
+                        self.requester.headers['Last-Event-ID'] = leid
                         self.connector.txbs.clear()  # remove any stale request leftovers
                         self.transmit()  # rebuilds and queues up most recent http request here
 
